@@ -114,7 +114,7 @@ def run_workers(pid, tier, seed, jobs, timeout):
 def merge(results):
     m = {"n_cases": 0, "nontrivial": set(), "violations": [], "counters": Counter(),
          "samples": [], "lines": {}, "raises": Counter(), "funcs": set(),
-         "harness_errors": [], "extra": []}
+         "harness_errors": [], "extra": [], "max_case_s": 0.0}
     for r in results:
         m["n_cases"] += r["n_cases"]
         m["nontrivial"].update(r["nontrivial"])
@@ -127,6 +127,7 @@ def merge(results):
         m["funcs"].update(r["funcs"])
         m["harness_errors"].extend(r["harness_errors"])
         m["extra"].extend(r.get("extra", []))
+        m["max_case_s"] = max(m["max_case_s"], r.get("max_case_s", 0.0))
     return m
 
 
@@ -235,6 +236,7 @@ def do_check(pid, tier, seed, jobs):
         "unknown_violation_mechs": {k: len(v) for k, v in by_mech.items()},
         "inconclusive_reasons": inconclusive,
         "workers": jobs,
+        "slowest_case_s": m["max_case_s"],
         "lena_from": REPO,
     }
     if m["extra"]:
